@@ -7,7 +7,7 @@ func VerifC25_stickyEager() {
 	if verifThorough() {
 		in = verifShape(1, 2, []int{3, 2}, true, false)
 	} else {
-		in = verifShape(1, 2, []int{2, 1}, false, false)
+		in = verifShape(1, 2, []int{1, 1}, true, false)
 	}
 	in.verifClaims(false)
 	in.verifBalanceValid(in.eagerMembers(), nil, "sticky")
@@ -74,8 +74,8 @@ func VerifC25_stickyWildClaims() {
 		in = verifShape(1, 2, []int{2, 1}, true, true)
 		in.verifClaims(true)
 	} else {
-		in = verifShape(2, 2, []int{1, 1}, false, true)
-		in.verifOwnerClaims(false)
+		in = verifShapeSubs(2, 2, []int{1, 1}, false, true, true)
+		in.verifOwnerClaims(true)
 		in.verifClaimsWild()
 	}
 	var members []GroupMember
@@ -96,7 +96,7 @@ func VerifC25_stickyRacks() {
 	if verifThorough() {
 		in = verifShape(2, 3, []int{2, 2}, false, false)
 	} else {
-		in = verifShape(2, 2, []int{2, 1}, false, false)
+		in = verifShapeSubs(2, 2, []int{2, 1}, false, false, true)
 	}
 	// a few prior-ownership patterns (racks only steer unassigned partitions); no
 	// conflicting claims, so generations are irrelevant
